@@ -93,6 +93,21 @@ CLAIMED = {
         design_ref='DESIGN.md 6/C09',
         note='Trusted: Coq kernel, translator (block set-up), extraction, harness; Spec/GF256.v, Spec/RSCode.v. No axioms.',
         technique='Coq proof: loop invariants + polynomial-roots uniqueness over GF(256) with ring reasoning; differential correspondence of the decoder model'),
+    'C05': dict(
+        text='Theorems (Coq, axiom-free), with every Rust panic site, fixed-width overflow and fuel exhaustion an explicit Panic outcome of the '
+             'model: C05_decode_data and C05_decode_str -- for EVERY codeword list the data decoder (ASCII, C40/Text, X12, EDIFACT, Base256, '
+             'ECI designators, macro handling, padding check) and the string decoder (ECI span slicing, ISO 8859 tables, UTF-8) return a value '
+             'or an error: bounds of every table index, u8 additions, termination of the mode loop (measure 2*remaining+mode) and the ECI '
+             'span invariant are proved; C05_try_from_bits -- the same for every bool vector and width. PARTIAL: for the Reed-Solomon decoder '
+             'only the shape of successful results is proved (C09); that no received word drives the Levinson-Durbin/Bjoerck-Pereyra code '
+             'out of bounds, into a division by zero or into its own debug assertions is NOT a theorem. That part, and the whole-symbol entry '
+             'point, rest on the correspondence run in debug AND release builds with panics caught: random words for all 48 sizes, words '
+             'constructed to have t or more leading zero syndromes, garbage symbols with a valid finder pattern. Six panics found on the '
+             'pinned tree were repaired (fix: commits).',
+        design_ref='DESIGN.md 6/C05',
+        note='Trusted: Coq kernel, translator (mode tables, charset tables), extraction, harness with catch_unwind; allocation failure and '
+             'stack exhaustion outside the model. No axioms.',
+        technique='Coq proof: explicit panic outcomes + bounds/termination invariants (full for data/string decoder and bitmap parser; RS decoder partial) + debug/release differential correspondence'),
 }
 
 PENDING_REASON = 'check not built yet in this round (work proceeds in the order of DESIGN.md section 11); not claimed until its quick command exists'
